@@ -33,7 +33,7 @@ def DATE(
         years=year - 1900, months=int(month) - 1, days=int(day) - 1)
     result = utils.EXCEL_EPOCH + delta
 
-    if result <= utils.EXCEL_EPOCH:
+    if result < utils.EXCEL_EPOCH:
         raise xlerrors.NumExcelError(
             f"Date result before {utils.EXCEL_EPOCH}")
 
@@ -159,7 +159,7 @@ def EDATE(
     delta = relativedelta(months=int(months))
     edate = utils.number_to_datetime(int(start_date)) + delta
 
-    if edate <= utils.EXCEL_EPOCH:
+    if edate < utils.EXCEL_EPOCH:
         raise xlerrors.NumExcelError(
             f"Date result before {utils.EXCEL_EPOCH}")
 
@@ -181,7 +181,7 @@ def EOMONTH(
     delta = relativedelta(months=int(months))
     edate = utils.number_to_datetime(int(start_date)) + delta
 
-    if edate <= utils.EXCEL_EPOCH:
+    if edate < utils.EXCEL_EPOCH:
         raise xlerrors.NumExcelError(
             f"Date result before {utils.EXCEL_EPOCH}")
 
